@@ -782,6 +782,11 @@ def replay_C16(w, clause):
     sys.path.insert(0, _REPO) if _REPO not in sys.path else None
     from codegen.case import to_snake_case
 
+    if "index_generation" in w:
+        from .props import c16
+
+        bad = c16.index_generation()
+        return {"reproduced": bool(bad), "sig": {"kind": "index_generation"}, "detail": "; ".join(bad)[:400] or "generated index equals the package walk"}
     if "snake_builtin" in w:
         n = w["snake_builtin"]
         return {"reproduced": True, "sig": {"kind": "builtin_suffix"}, "detail": f"to_snake_case({n!r}) = {to_snake_case(n)!r}"}
